@@ -104,9 +104,11 @@ func TierB(tier string) []Spec {
 		Threads: [][]string{{"LimitOrdersOfPool", "SwapPools"}}, Bound: 1})
 	add(Spec{Name: "B1/book add order then cancel | LimitOrders,LimitOrdersOfPool", World: "book", Prefix: []PBlock{{Txs: []string{"m1 sale 1000/1000 (price 1)", "m2 sale 2000/2000 (price 1, equal)"}}},
 		Block: PBlock{Txs: []string{"m1 cancels order 1"}}, CheckTx: true, Threads: [][]string{{"LimitOrders", "LimitOrdersOfPool"}}, Bound: 1})
-	add(Spec{Name: "B1/stake unbond at the payout boundary | Candidates,Address", World: "stake", Prefix: []PBlock{{Txs: []string{"d1 delegate 100 BIP to c1"}}},
-		Block: PBlock{Txs: []string{"d1 unbond 100 of 3333.3 BIP from c1"}}, Threads: [][]string{{"Candidates", "Address"}}, Bound: 1})
+	add(Spec{Name: "B1/stake delegate | Candidate,WaitList", World: "stake", Block: PBlock{Txs: []string{"d1 delegate 100 BIP to c1"}}, CheckTx: true,
+		Threads: [][]string{{"Candidate", "WaitList"}}, Bound: 1})
 	if tier != "quick" {
+		add(Spec{Name: "B1/stake unbond at the payout boundary | Candidates,Address", World: "stake", Prefix: []PBlock{{Txs: []string{"d1 delegate 100 BIP to c1"}}},
+			Block: PBlock{Txs: []string{"d1 unbond 100 of 3333.3 BIP from c1"}}, Threads: [][]string{{"Candidates", "Address"}}, Bound: 1})
 		add(Spec{Name: "B1/coin create pool + fee through pool | 2 query threads", World: "coin",
 			Block:   PBlock{Txs: []string{"A create pool COINA/TOKB", "A send 10 TOKB gas TOKB (pool route)"}},
 			Threads: [][]string{{"BestTradeNew"}, {"SwapPools"}}, Bound: 1})
@@ -165,7 +167,19 @@ func TierB(tier string) []Spec {
 
 // List returns all scenarios of a tier in a fixed order.
 func List(tier string) []Spec {
-	out := append(TierB(tier), TierA(tier)...)
+	// cheap and broad first: tier A, then the single-call scenarios (B2), then whole blocks (B1)
+	out := TierA(tier)
+	b := TierB(tier)
+	for _, s := range b {
+		if s.Bound == 2 {
+			out = append(out, s)
+		}
+	}
+	for _, s := range b {
+		if s.Bound != 2 {
+			out = append(out, s)
+		}
+	}
 	seen := map[string]bool{}
 	for _, s := range out {
 		if seen[s.Name] {
